@@ -93,7 +93,7 @@ CHECKS = {
         technique="Rocq proof over the encoder model + window/constructor correspondence",
         ref="DESIGN.md section 5, C18"),
     "C07": dict(
-        text="PARTIAL. Proved (corollaries of the uniqueness theorems): any two certified solves of one system -- whatever back-end, sparse threshold, pivoting or plan origin -- read out the same symbols (C07_two_certificates_same_symbols); success is a property of the system, not of the solver run (C07_success_is_backend_independent); replayed plan = direct solve in both modes (C07_plan_origin_irrelevant); the matrix model does not depend on overflow checking (C07_matrix_mode_irrelevant); every kernel dispatch path equals the portable kernels (C07_kernel_dispatch_irrelevant, from C11). Validated by cross-build correspondence on every run: one seeded workload in {release, debug+overflow-checks} x {std, no_std} with decoder thresholds {dense, 250, sparse} and encoders built five ways (warm/cold cache, explicit plan, direct sparse, direct dense); all result lines identical and equal to the model's.",
+        text="PARTIAL. Proved (corollaries of the uniqueness theorems): any two certified solves of one system -- whatever back-end, sparse threshold, pivoting or plan origin -- read out the same symbols (C07_two_certificates_same_symbols); success is a property of the system, not of the solver run (C07_success_is_backend_independent); replayed plan = direct solve in both modes (C07_plan_origin_irrelevant); the matrix model does not depend on overflow checking (C07_matrix_mode_irrelevant); every kernel dispatch path equals the portable kernels (C07_kernel_dispatch_irrelevant, from C11); build variants at model level: the encoder's intermediate symbols are the same for the reference model in every mode and for the model running the real five-phase solver in its debug (X matrix, full-row eliminations, overflow checks) and release (errata-11 shortcuts) variants (C07_encoder_reference_mode_irrelevant, C07_encoder_build_mode_irrelevant); the decoder's constraint matrix and WHETHER it answers are the same in both variants for every reachable state (C07_decoder_matrix_mode_irrelevant, C07_decodability_build_mode_irrelevant; what it answers is the block in every mode by C01u/C01s). Validated by cross-build correspondence on every run: one seeded workload in {release, debug+overflow-checks} x {std, no_std} with decoder thresholds {dense, 250, sparse} and encoders built five ways (warm/cold cache, explicit plan, direct sparse, direct dense); all result lines identical and equal to the model's.",
         note="Build, no_std and CPU independence of the REAL binaries is validated on this AVX-512 x86_64 host only, not proved: a theorem about the model cannot exhibit compiler or CPU behaviour; other CPUs' kernels are covered by C11's per-kernel theorems and direct runs. No axioms.",
         technique="Rocq corollaries of solution uniqueness + cross-build / cross-back-end correspondence (partial)",
         ref="DESIGN.md section 5, C07"),
